@@ -11,9 +11,6 @@ namespace App
 def GoodEntry (s : App) (op : Nat) (p : Int) : Prop :=
   ∃ v, s.getVal op = some v ∧ v.status = .bonded ∧ v.jailed = false ∧ p = ((powerOf v.tokens : Nat) : Int) ∧ powerOf v.tokens > 0
 
-theorem getVal_congr (a b : App) (h : a.vals = b.vals) (op : Nat) : a.getVal op = b.getVal op := by
-  simp [getVal, h]
-
 theorem getVal_delVal_ne (s : App) (op op2 : Nat) (h : op2 ≠ op) : (s.delVal op).getVal op2 = s.getVal op2 := by
   simp only [getVal, delVal]
   induction s.vals with
